@@ -114,6 +114,8 @@ class C18(core.Prop):
             d = {}
             for s in ex:
                 d[s] = d.get(s, 0) + 1
+            if case.get('zero_key', len(ex) % 3 == 0) and 'zz-9' not in d:
+                d['zz-9'] = 0          # (a Counter counted down to nothing: supplied zero times, not an example)
             arg = d
         else:
             arg = list(ex)
